@@ -142,7 +142,60 @@ def real_histories(ctx):
             (own_group or execnet.default_group).terminate(timeout=3)
         cases.append({"events": evs, "history": h, "made_by": make.__name__})
     cases.append(group_round_case())
+    cases.append(function_close_case(ctx))
     return cases
+
+
+def function_close_case(ctx):
+    """a remote_exec'd FUNCTION that tries to close its own channel (directly and through a proxyclose channel file) and then keeps
+    running: the refusal keeps the channel open until the body is over, so a submission made after waitclose() returned is sequential"""
+    import importlib.util
+    import os
+    import sys
+
+    import execnet
+
+    path = os.path.join(ctx.scratch, "c14closer.py")
+    open(path, "w").write(
+        "def body(channel):\n    import threading, time\n    channel.send(('start', threading.current_thread() is threading.main_thread()))\n"
+        "    for attempt in (channel.close, channel.makefile('w', proxyclose=True).close):\n        try:\n            attempt()\n        except OSError:\n            pass\n"
+        "    time.sleep(1.6)\n\n"
+        "def quick(channel):\n    import threading\n    channel.send(('start', threading.current_thread() is threading.main_thread()))\n    channel.send(1)\n")
+    spec = importlib.util.spec_from_file_location("c14closer", path)
+    mod = importlib.util.module_from_spec(spec)
+    sys.modules["c14closer"] = mod
+    spec.loader.exec_module(mod)
+    gw = execnet.makegateway("popen//execmodel=main_thread_only")
+    evs = []
+
+    def ev(e, op="", chan=0, tok=0, res="", flag=False):
+        evs.append({"ev": e, "side": "i", "op": op, "chan": chan, "tok": tok, "res": res, "thread": "u1", "flag": flag})
+
+    try:
+        for fn in (mod.body, mod.quick):
+            ev("call", "remote_exec", tok=1)
+            ch = gw.remote_exec(fn)
+            ev("ret", "remote_exec", ch.id, res="ok")
+            started = False
+            try:
+                for item in ch:
+                    if isinstance(item, tuple) and item[0] == "start" and not started:
+                        started = True
+                        ev("body_start", "", ch.id, flag=bool(item[1]))
+                ch.waitclose(20)
+                res = "ok"
+            except ch.RemoteError as e:
+                res = "RemoteError:deadlock" if "would cause deadlock" in str(e) else "RemoteError"
+            except Exception as e:  # noqa: BLE001
+                res = "exc:" + type(e).__name__
+            if started:
+                ev("body_end", "", ch.id)
+            ev("ret", "waitclose", ch.id, res=res)
+        ev("end")
+    finally:
+        gw.exit()
+        execnet.default_group.terminate(timeout=3)
+    return {"events": evs, "history": ["function that tries to close its own channel and keeps running", "ret"], "made_by": "function_close_case"}
 
 
 def group_round_case():
